@@ -15,6 +15,9 @@ PROP = {
         "Multi.C14.geqrf_arguments",
         "Multi.C14.geqrf_needs_unit_inner_stride",
         "Multi.C14.syev_arguments",
+        "Multi.C14.syev_result",
+        "Multi.C14.syev_overloads",
+        "Multi.C14.syev_eigenpairs",
     ],
     # potrf.hpp and geqrf.hpp cannot be included in one translation unit at the pinned commit: the harness is built twice
     "harnesses": [
@@ -22,23 +25,26 @@ PROP = {
          "programs": {"quick": 8000, "thorough": 360000}},
         {"name": "lapack_qr", "src": "lapack.cpp", "flags": ["-O1", "-g", "-DLAPACK_PART=2"], "libs": LIBS, "env": ENV, "modes": ["x"], "driver": "mmdrv_lapack",
          "programs": {"quick": 8000, "thorough": 360000}},
+        {"name": "lapack_syev", "src": "lapack.cpp", "flags": ["-O1", "-g", "-DLAPACK_PART=3"], "libs": LIBS, "env": ENV, "modes": ["x"], "driver": "mmdrv_lapack",
+         "programs": {"quick": 8000, "thorough": 360000}},
     ],
     "hooks": ["probe_geqrf_inner_stride", "probe_syev_compiles"],
     "trusted_base": TRUSTED_COMMON + [
-        "LAPACK contracts PotrfPost / GesvdPost (MultiModel/Lapack.lean): DPOTRF factors the selected triangle of the column-major matrix it is given, writes only that triangle, info = order of the first non-positive leading minor; DGESVD('A','A') returns U, s, VT with A = U diag(s) VT. DGEQRF's contract (reflectors + tau) is not formalised: validated numerically",
-        "link-time interposition of dpotrf_/dgeqrf_/dgesvd_ (dlsym RTLD_NEXT) shows exactly what the adaptor passes; reference LAPACK + OpenBLAS (single thread) as the executor",
+        "LAPACK contracts PotrfPost / GesvdPost (MultiModel/Lapack.lean): DPOTRF factors the selected triangle of the column-major matrix it is given, writes only that triangle, info = order of the first non-positive leading minor; DGESVD('A','A') returns U, s, VT with A = U diag(s) VT. DSYEV('V') returns in column k an eigenvector of the symmetric matrix read from the selected triangle for the eigenvalue w[k] (SyevPost). DGEQRF's contract (reflectors + tau) is not formalised: validated numerically",
+        "link-time interposition of dpotrf_/dgeqrf_/dgesvd_/dsyev_ (dlsym RTLD_NEXT) shows exactly what the adaptor passes; reference LAPACK + OpenBLAS (single thread) as the executor",
         "numerics (rounding, ordering of singular values, detection of the failing minor) are validated by the run, never proved",
     ],
     "assumptions": [
         "matrix views are zero-based and well formed; potrf: square n x n with unit leading or unit inner stride (asserted by the adaptor); geqrf/gesvd: unit inner stride (asserted by both)",
         "element type double (dpotrf_/dgeqrf_/dgesvd_); the complex instantiations share the same argument logic",
-        "syev.hpp does not compile at the pinned commit (like getrf.hpp): its argument logic is transcribed from the text and proved, but cannot be validated by a run",
+        "syev: square n x n with unit inner or unit leading stride (anything else is assert(0)), w and work with unit stride, size(work) >= max(1, 3n-1) (asserted); info = 0 (non-convergence of DSYEV cannot be provoked)",
+        "the orientation of the eigenvectors depends on the storage: rows of a view with unit inner stride, columns of one with unit leading stride; the const& overloads work on a row-major copy and always return rows (proved as coded, documented, not filed)",
     ],
     "rule": ("programs = one routine call on generated views: potrf on n x n (n 1..8), row-major or transposed storage, contiguous or padded sub-block, either triangle, positive definite "
-             "or with a chosen first non-positive leading minor; geqrf on p x q (1..8) row-major contiguous/padded with a padded tau; gesvd on p x q with padded UU, ss, VV; "
+             "or with a chosen first non-positive leading minor; geqrf on p x q (1..8) row-major contiguous/padded with a padded tau; gesvd on p x q with padded UU, ss, VV; syev on n x n (1..8) in both storages, padded, both triangles, the five overloads (explicit workspace possibly larger than needed, automatic workspace, eigenvalues returned, const input); "
              "distinct = different program text; non-trivial = matrix order >= 2"),
-    "level_text": "Theorems (all sizes, both triangles, both storage orientations, any leading dimension; real case over a commutative ring, under stated LAPACK contracts): potrf passes the character, order, pointer and leading dimension for which LAPACK's column-major matrix is the logical view (stride(A)==1 branch, flipped filling) or its transpose (row-major branch), so the selected LOGICAL triangle of the leading r x r block (r = n or info-1) holds T with T^T T = A resp. T T^T = A and only that triangle of the view is written; geqrf's and gesvd's arguments denote the transpose of the logical view element by element, and the three gesvd outputs satisfy AA = UU diag(ss) VV in the views' own index spaces; syev's two branches (from the source text) select the logical triangle and return eigenvectors as rows resp. columns. The model is tied to /repo by interposed capture of the real Fortran calls; reconstruction residuals, triangle-only writes and guard cells are checked numerically.",
-    "level_note": "Partial: orientation/argument logic proved under stated LAPACK contracts (trusted); 'within rounding error', eigen/singular value order and DGEQRF's reflector format are validated only. Open finding: syev.hpp does not compile (no run possible). Fixed in /repo: potrf's r x n result for row-major non-positive-definite input; geqrf's unchecked inner stride.",
+    "level_text": "Theorems (all sizes, both triangles, both storage orientations, any leading dimension; real case over a commutative ring, under stated LAPACK contracts): potrf passes the character, order, pointer and leading dimension for which LAPACK's column-major matrix is the logical view (stride(A)==1 branch, flipped filling) or its transpose (row-major branch), so the selected LOGICAL triangle of the leading r x r block (r = n or info-1) holds T with T^T T = A resp. T T^T = A and only that triangle of the view is written; geqrf's and gesvd's arguments denote the transpose of the logical view element by element, and the three gesvd outputs satisfy AA = UU diag(ss) VV in the views' own index spaces; syev's two branches read the logical triangle and, under DSYEV's contract, leave in row k (unit inner stride) resp. column k (unit leading stride) of the view an eigenvector of the logical symmetric matrix for w[k]; its workspace, returned block and convenience overloads are as asserted. The model is tied to /repo by interposed capture of the real Fortran calls; reconstruction residuals, triangle-only writes and guard cells are checked numerically.",
+    "level_note": "Partial: orientation/argument logic proved under stated LAPACK contracts (trusted); 'within rounding error', eigen/singular value order and DGEQRF's reflector format are validated only. No open finding. Fixed in /repo: syev.hpp did not compile; potrf's r x n result for row-major non-positive-definite input; geqrf's unchecked inner stride.",
 }
 
 
@@ -50,6 +56,8 @@ def nontrivial(prog_lines, answer_lines):
         if w and w[0] == "geqrf" and int(w[1]) >= 2 and int(w[2]) >= 2:
             return True
         if w and w[0] == "gesvd" and int(w[3]) >= 2 and int(w[4]) >= 2:
+            return True
+        if w and w[0] == "syev" and int(w[3]) >= 2:
             return True
     return False
 
@@ -121,7 +129,7 @@ def probe_geqrf_inner_stride(ctx):
 
 
 def probe_syev_compiles(ctx):
-    """syev.hpp is claimed by the property; at the pinned commit it does not compile, so no run can validate the transcription"""
+    """syev.hpp is claimed by the property: it must compile (it did not before the fix commit); the run itself is harness lapack_syev"""
     os.makedirs(ctx["build"], exist_ok=True)
     src = os.path.join(ctx["build"], "syev_probe.cpp")
     open(src, "w").write("#include <boost/multi/array.hpp>\n#include <boost/multi/adaptors/lapack/syev.hpp>\nint main() { return 0; }\n")
@@ -132,8 +140,8 @@ def probe_syev_compiles(ctx):
                                 "observed_impl": first, "what": "syev.hpp does not compile (malformed #include lines, core::syev undeclared): the syev part of the property cannot be exercised"}],
                 "stats": {"compiles": False, "note": "correspondence probe, not a proof obligation: the syev transcription has no executable counterpart to be validated against (open finding)"},
                 "obligations": 0, "discharged": 0}
-    return {"violations": [{"key": "C14:syev:compiles-but-unvalidated", "what": "syev.hpp now compiles: harness/lapack.cpp must be extended with a dsyev_ interposer and the syev queries (MultiModel.Lapack.syevCall is already there)"}],
-            "stats": {"compiles": True}, "obligations": 1, "discharged": 0}
+    # it compiles: the lapack_syev harness (LAPACK_PART=3) exercises it in the correspondence run
+    return {"violations": [], "stats": {"compiles": True}, "obligations": 1, "discharged": 1}
 
 
 def reproduce_finding(f, ctx):
